@@ -87,8 +87,11 @@ impl<'a> IrEmitter<'a> {
                 quote! { false }
             }),
             IrExprKind::Int(n) => {
-                // Emit integers without suffix to let Rust infer the type
-                let lit = if *n >= 0 {
+                // Emit integers without suffix to let Rust infer the type — except those that do not fit the `i32` an
+                // otherwise unconstrained literal falls back to (`k = 5000000000` is `let k = 5000000000i64;`)
+                let lit = if *n > i32::MAX as i64 || *n < i32::MIN as i64 {
+                    Literal::i64_suffixed(*n)
+                } else if *n >= 0 {
                     Literal::u64_unsuffixed(*n as u64)
                 } else {
                     Literal::i64_unsuffixed(*n)
